@@ -29,8 +29,8 @@ ANCHOR_FILES = ["src/ropt/ensemble_evaluator/_ensemble_evaluator.py", "src/ropt/
 RULE = ("case = one configuration; non-trivial if the run made at least one gradient (perturbation) request or is a population run; distinct key = case index; "
         "monitor_counters: traces compared, evaluator calls hashed")
 ASSUMPTIONS = ["differential_evolution is only required to be reproducible when given an explicit 'seed' option (as the statement says)"]
-REQUIRED = {"quick": {"trace_pairs_compared": 295, "evaluator_calls_hashed": 2515, "foreign_runs_interleaved": 144, "seed_sensitivity_checked": 30, "fresh_process_runs": 6, "same_step_reruns": 200, "runs_with_unscrambled_qmc_samplers": 15, "generator_object_seed_reruns": 30, "fresh_process_runs_with_several_samplers": 120, "runs_with_a_foreign_run_inside": 70, "first_drawing_sampler_without_variables": 5, "__nontrivial__": 63},
-            "thorough": {"trace_pairs_compared": 6075, "evaluator_calls_hashed": 57264, "foreign_runs_interleaved": 3000, "seed_sensitivity_checked": 700, "fresh_process_runs": 75, "same_step_reruns": 4000, "runs_with_unscrambled_qmc_samplers": 300, "generator_object_seed_reruns": 600, "fresh_process_runs_with_several_samplers": 700, "runs_with_a_foreign_run_inside": 1400, "__nontrivial__": 1245}}
+REQUIRED = {"quick": {"trace_pairs_compared": 295, "evaluator_calls_hashed": 2515, "foreign_runs_interleaved": 144, "seed_sensitivity_checked": 30, "fresh_process_runs": 6, "same_step_reruns": 200, "runs_with_unscrambled_qmc_samplers": 15, "runs_with_relative_perturbations": 14, "generator_object_seed_reruns": 30, "fresh_process_runs_with_several_samplers": 120, "runs_with_a_foreign_run_inside": 70, "first_drawing_sampler_without_variables": 5, "__nontrivial__": 63},
+            "thorough": {"trace_pairs_compared": 6075, "evaluator_calls_hashed": 57264, "foreign_runs_interleaved": 3000, "seed_sensitivity_checked": 700, "fresh_process_runs": 75, "same_step_reruns": 4000, "runs_with_unscrambled_qmc_samplers": 300, "runs_with_relative_perturbations": 300, "generator_object_seed_reruns": 600, "fresh_process_runs_with_several_samplers": 700, "runs_with_a_foreign_run_inside": 1400, "__nontrivial__": 1245}}
 N = {"quick": 120, "thorough": 2500}
 SAMPLERS = ["norm", "uniform", "truncnorm", "sobol", "halton", "lhs"]
 
@@ -96,6 +96,15 @@ def gen_spec(rng):
         spec["nan"] = [{"call": None, "r": int(rng.integers(R)), "p": int(rng.integers(-1, P)), "col": 0}]
         spec["rmin"] = 0 if method == "differential_evolution" else 1
         spec["pmin"] = max(1, P - 1)
+    if rng.random() < 0.25:
+        # magnitudes relative to the bound range for some or all variables (the other settings of the gradient section,
+        # the seed among them, are what the user wrote all the same)
+        if "lb" not in spec:
+            spec["lb"], spec["ub"] = [-1.5] * V, [1.5] * V
+        pt = rng.integers(1, 3, size=V)
+        pt[int(rng.integers(V))] = 2
+        spec["ptypes"] = [int(t) for t in pt]
+        spec["_relative"] = True
     return spec
 
 
@@ -262,6 +271,8 @@ def run_case(case, obs):
         handles = free & (np.array(spec["smap"]) == k) if spec.get("smap") is not None else (free if k == 0 else np.zeros_like(free))
         if handles.any() and sm.get("options", {}).get("scramble") is not False:      # (an unscrambled design of a few points may coincide for two seeds)
             draws = True
+    if spec.get("_relative"):
+        obs.count("runs_with_relative_perturbations")
     if spec.get("_unscrambled"):
         obs.count("runs_with_unscrambled_qmc_samplers")
     if A[3] and draws:
